@@ -21,6 +21,13 @@ def main(tier, seed, replay=None):
             S = max(S, 2)
         c = gen_problem(rng, quant=(8 if i % 6 else None), S=S, ctor=("mrhs_parallel" if par else "mrhs"),
                         eps=(rng.choice([1e-3, 1e-2, -1e-3]) if big else None))
+        if (c["meta"]["N"] >= 17 or i % 6 == 0) and S > 3:
+            # long problems / full-precision model values with many columns are expensive in exact arithmetic (Qc normalises
+            # with a gcd written in Gallina: minutes per state): keep three columns
+            S = 3
+            c["meta"]["S"] = 3
+            Yl = [o for o in c["build"] if o[0] == "obs"][-1]
+            Yl[2] = Yl[2][:3]
         Y = [o for o in c["build"] if o[0] == "obs"][-1]
         if big:
             # columns of very different magnitude together with a sizeable absolute threshold: what happens to one column (which
